@@ -225,6 +225,7 @@ def decl_text(d):
         attrs.append("intent(%s)" % d["intent"])
     if d.get("alloc"):
         attrs.append("allocatable")
+    attrs += list(d.get("attrs", []))      # e.g. volatile, asynchronous
     name = d["name"]
     if d["dims"]:
         ds = []
